@@ -1302,10 +1302,10 @@ fn main() {
                 idx += 1;
             }
         }
-        let n = args.n.unwrap_or(if thorough { 2400 } else { 240 });
+        let n = args.n.unwrap_or(if thorough { 1800 } else { 240 });
         for i in 0..n {
             let mut r = rng.fork();
-            let maxb = if thorough && i % 7 == 0 { 20000 } else { 300 };
+            let maxb = if thorough && i % 10 == 0 { 20000 } else { 300 };
             let g = match r.below(100) {
                 0..=44 => gen_sequence(&mut r, maxb),
                 45..=56 => gen_interim(&mut r),
